@@ -27,6 +27,9 @@ func dispSpec(withInit bool) kit.Spec {
 		{ID: 3, Life: "transient", Err: true, Outs: []kit.Out{{T: "D3"}}, Deps: []kit.Dep{{T: "D0"}}},
 		{ID: 4, Life: "scoped", Err: true, Outs: []kit.Out{{T: "D4"}, {T: "D5"}}, Deps: []kit.Dep{{T: "D2"}, {T: "D3"}}},
 		{ID: 6, Life: "singleton", Err: true, Outs: []kit.Out{{T: "P0"}}, Deps: []kit.Dep{{T: "D3"}}},
+		// disposable concrete types registered under interface types that have no Close method
+		{ID: 8, Life: "transient", Err: true, Outs: []kit.Out{{T: "D0"}}, As: []string{"IA"}},
+		{ID: 9, Life: "scoped", Err: true, Outs: []kit.Out{{T: "IB", Conc: "D1"}}, Deps: []kit.Dep{{T: "IA"}}},
 	}}
 	if withInit {
 		s.Regs = append(s.Regs,
@@ -36,7 +39,7 @@ func dispSpec(withInit bool) kit.Spec {
 	return s
 }
 
-var dispProbes = []Op{{Kind: "get", T: "D2"}, {Kind: "get", T: "D3"}, {Kind: "get", T: "D5"}, {Kind: "get", T: "D1"}}
+var dispProbes = []Op{{Kind: "get", T: "D2"}, {Kind: "get", T: "D3"}, {Kind: "get", T: "D5"}, {Kind: "get", T: "IB"}, {Kind: "get", T: "IA"}, {Kind: "get", T: "D1"}}
 
 func dispFilter(prop string, fs []Finding) []Finding {
 	var out []Finding
@@ -81,7 +84,7 @@ func dispHistCfgs(prop, tier string) []*histCfg {
 	var out []*histCfg
 	out = append(out,
 		&histCfg{Name: prop + "-hist/plain", Spec: dispSpec(false), Probes: dispProbes, MaxScopes: 3, Depth: depth, CtxKinds: []string{"cancel"}, Final: dispFinal, Oracle: dispOracle(prop)},
-		&histCfg{Name: prop + "-hist/init", Spec: dispSpec(true), Probes: dispProbes[:2], MaxScopes: 3, Depth: depth, CtxKinds: []string{""}, Final: dispFinal, Oracle: dispOracle(prop)},
+		&histCfg{Name: prop + "-hist/init", Spec: dispSpec(true), Probes: dispProbes[:4], MaxScopes: 3, Depth: depth - 1, CtxKinds: []string{""}, Final: dispFinal, Oracle: dispOracle(prop)},
 	)
 	// scope churn: many children under one parent, created and closed in every order
 	churnDepth := 7
@@ -93,7 +96,7 @@ func dispHistCfgs(prop, tier string) []*histCfg {
 	if prop == "C10" {
 		// fault positions: every constructor, invocation 1..3, error / panic / nil
 		fd := depth - 2
-		for _, reg := range []int{0, 1, 2, 3, 4, 5, 6, 7} {
+		for _, reg := range []int{0, 1, 2, 3, 4, 5, 6, 7, 8, 9} {
 			for serial := 1; serial <= 3; serial++ {
 				for _, kind := range []string{"err", "panic:string"} {
 					if (reg == 0 || reg == 1 || reg == 6) && serial > 1 {
@@ -103,7 +106,7 @@ func dispHistCfgs(prop, tier string) []*histCfg {
 						continue
 					}
 					out = append(out, &histCfg{Name: fmt.Sprintf("%s-hist/fault-r%d#%d-%s", prop, reg, serial, kind), Spec: dispSpec(true),
-						Faults: map[string]string{fmt.Sprintf("%d:%d", reg, serial): kind}, Probes: dispProbes[:3], MaxScopes: 2, Depth: fd,
+						Faults: map[string]string{fmt.Sprintf("%d:%d", reg, serial): kind}, Probes: dispProbes[:4], MaxScopes: 2, Depth: fd,
 						CtxKinds: []string{""}, Final: dispFinal, Oracle: dispOracle(prop)})
 				}
 			}
@@ -158,7 +161,7 @@ func registerDisp(prop, rule string) {
 }
 
 func init() {
-	registerDisp("C10", "histories: every sequence to depth 5 (quick) / 6 (thorough) over {CreateScope(provider|scope), resolutions of scoped / transient / second output of a two-output constructor / singleton, Close(scope|provider), cancel} on <=3 scopes of an all-disposable container (with and without scope initializers), completed by closing the provider; fault positions: every constructor x invocation 1..2(3) x {returns error, panics} during Build, scope creation and resolution, over every history to depth 3/4; schedules: Resolve||Close(scope), Resolve||cancel, Resolve||Close(provider), CreateScope-with-initializers||Close, all schedules with <=2/3 preemptions. Oracle at the end of every execution: every container-created disposable closed exactly once, not before a Close/cancel of its owner, an ancestor or the provider started (or the creation that made it failed); non-disposables untouched. An outcome is the canonical observation string of one execution.")
+	registerDisp("C10", "histories: every sequence to depth 5 (quick) / 6 (thorough) over {CreateScope(provider|scope), resolutions of scoped / transient / second output of a two-output constructor / disposables registered under interface types without Close (alias, interface-typed return) / singleton, Close(scope|provider), cancel} on <=3 scopes of an all-disposable container (with and without scope initializers), completed by closing the provider; fault positions: every constructor x invocation 1..2(3) x {returns error, panics} during Build, scope creation and resolution, over every history to depth 3/4; schedules: Resolve||Close(scope), Resolve||cancel, Resolve||Close(provider), CreateScope-with-initializers||Close, all schedules with <=2/3 preemptions. Oracle at the end of every execution: every container-created disposable closed exactly once, not before a Close/cancel of its owner, an ancestor or the provider started (or the creation that made it failed); non-disposables untouched. An outcome is the canonical observation string of one execution.")
 	registerDisp("C11", "same histories as C10 without faults (the property quantifies over configurations and histories, not schedules); oracle on the global stamp sequence: within one owner (each scope; the singleton set) close order is exactly reverse creation order; every close in a descendant scope precedes every own-instance close of its ancestor; every scope-owned close (root scope included) precedes every singleton close.")
 	mc.Register(&mc.Check{
 		Prop: "C12", MinOutcomes: 10,
